@@ -9,7 +9,7 @@ THEOREMS = [
     "C27_typechange_refuted", "C27_samestat_refuted", "C27_info_exclude_refuted",
     "C27_shortcut_sound_partial", "C27_shortcut_sound_refuted",
     "C27_ts_compare", "C27_shortcut_sound_ns_partial", "C27_shortcut_seconds_refuted",
-    "C27_walk_flat", "C27_status_eq",
+    "C27_walk_flat", "C27_status_eq", "C27_index_tree", "C27_status_eq_entries", "C27_walks_agree_small",
     "C27_skip_staged_refuted", "C27_skip_dir_untracked_refuted", "C27_skip_names_unrepaired_refuted",
 ]
 MODEL_FILES = ["Status.v", "StatTime.v", "StatusTrie.v", "DiffTree.v", "Gitignore.v"]
@@ -30,7 +30,7 @@ TRUSTED = [
     "C-impl: Worktree.Status on repositories built by harness/porc with the git binary vs Model/Status on every case",
     "oracle: `git status --porcelain=v1 -z --untracked-files=all --ignored=no --no-renames` on the same repository",
     "C-git: Spec/GitStatus vs the same git output on every case (spec_mismatches)",
-    "python gitignore evaluator for the generated pattern grammar (props/porc_gen.py), validated through C-git",
+    "python gitignore evaluator for the generated pattern grammar (props/porc_gen.py): only used to classify failing cases",
 ]
 ASSUMPTIONS = [
     "SHA-1 and SHA-256 object ids are injective on the generated contents (content identity stands for the id)",
@@ -38,7 +38,11 @@ ASSUMPTIONS = [
 ]
 RULE = ("case = flattened (HEAD, index, worktree) maps over a 23-path universe with file/dir conflicts, modes f/x/symlink, "
         "staged and unstaged edits, touches, same-size edits with restored mtime, racy index time, intent-to-add entries, "
-        "nested .gitignore / info/exclude, empty directories, core.fileMode, object format; non-trivial = some path differs "
+        "nested .gitignore / info/exclude (the verdict computed by the C49 model from the files' contents), empty directories, "
+        "core.fileMode, object format, explicit (seconds, nanoseconds) mtimes of a same-size rewrite against the entry's and the "
+        "index file's (equal / same second / other second x older / equal / newer), skip-worktree entries (file gone, kept, "
+        "changed; staged changes under the flag; a whole directory flagged; neighbours sorting before / after at other depths; "
+        "a flagged .gitignore); non-trivial = some path differs "
         "between two of the maps; distinct by content")
 
 MODE = {"f": 0, "x": 1, "l": 2}
@@ -173,10 +177,12 @@ def deviation(st, p):
     def all_skip_dir(q):
         comps = q.split("/")
         for k in range(1, len(comps)):
-            d = "/".join(comps[:k]) + "/"
-            below = [e for x, e in st["index"].items() if x.startswith(d)]
+            d = "/".join(comps[:k])
+            below = [e for x, e in st["index"].items() if x.startswith(d + "/")]
             if below and all(e[2] == "skip" for e in below):
                 return True
+            if st["index"].get(d, ("", b"", ""))[2] == "skip":
+                return True       # a flagged file entry whose path is a directory now: passed over with all it holds
         return False
     if i is not None and i[2] == "skip" and (h is None or h[:2] != i[:2]):
         return "skip-staged-invisible"
@@ -220,17 +226,21 @@ class Main(Suite):
     name = "main"
     go_cmd = "c27"
     coq_imports = "From GoGit Require Import Model.Status Model.StatusTrie Spec.GitStatus Spec.GitStatusTrie."
-    quick_n = 130
+    quick_n = 170
     thorough_n = 500
     coq_chunk = 100
 
     def gen(self, rng, n, tier):
         cases = []
         feats = ["ita", "typechange", "samestat", "sha256", "filemode", "stagedel"]
+        j = 0
         for k in range(n):
             # at most one deviation-prone ingredient per case, so that every disagreement has one cause
             r = rng.random()
-            f = ("ignore", "racy") if r < 0.45 else ("ignore", "racy", feats[k % len(feats)])
+            special = k % 11 == 5 or k % 6 == 3 or k % 13 == 7 or k % 6 == 1      # the dedicated buckets below
+            f = ("ignore", "racy") if r < 0.45 else ("ignore", "racy", feats[j % len(feats)])
+            if not special:
+                j += 1
             st = pg.gen_state(rng, features=f)
             c = pg.recipe(st)
             c["bucket"] = "plain" if len(f) == 2 else f[2]
@@ -280,6 +290,22 @@ class Main(Suite):
                                 st["index"][q] = st["index"][q][:2] + ("skip",)
                 c = pg.recipe(st)
                 c["bucket"] = "skip"
+            if k % 13 == 7:
+                # an excluded directory that is entered because it holds tracked files: nothing below it can be
+                # re-included, by a negation at the root or by its own .gitignore; tracked files stay visible
+                d = rng.choice(["d", "build"])
+                t1, t2, u1, u2 = rng.sample(["e", "f", "loc", "top", "y.o", "t.tmp"], 4)
+                a, b2 = b"1\n", b"2\n"
+                root = rng.choice([d + "/\n!" + d + "/" + u1 + "\n", d + "/\n!" + u1 + "\n", d + "\n!" + d + "/*\n", "/" + d + "/\n!*\n"]).encode()
+                st = {"fmt": "sha1", "filemode": True, "racy": False, "exclude": b"", "dirs": [],
+                      "head": {d + "/" + t1: ("f", a), d + "/" + t2: ("f", a), "k": ("f", a)},
+                      "index": {d + "/" + t1: ("f", a, ""), d + "/" + t2: ("f", rng.choice([a, b2]), ""), "k": ("f", a, "")},
+                      "wt": {".gitignore": ("f", root, ""), d + "/" + t1: ("f", rng.choice([a, b2]), ""), "k": ("f", a, ""),
+                             d + "/" + u1: ("f", b2, ""), d + "/sub/" + u2: ("f", b2, "")}}
+                if rng.random() < 0.5:
+                    st["wt"][d + "/.gitignore"] = ("f", ("!" + u1 + "\n!sub/\n").encode(), "")
+                c = pg.recipe(st)
+                c["bucket"] = "excluded-dir"
             if k % 6 == 1:
                 # same-size rewrite of a tracked file with explicit sub-second time stamps (see STAMPS)
                 a, b = rng.choice([(b"11\n", b"22\n"), (b"1\n", b"2\n"), (b"x", b"y"), (b"same\n", b"same\n")])
